@@ -285,6 +285,8 @@ class AltDecStage(Stage):
         self.E = EAS
         self.cfg = sim.make_config()
         self.ev = [(0.01, 0.9999, 2000.0, 0.3), (0.5, 0.999999, 1e6, 1e-300), (0.0, 0.99, 100.0, 1.0), (0.7, 1.0, 1e9, 0.5), (0.3, 0.5, 3.0, 5e-324)]
+        # the closed ends of the generator's interval as signed zeros (a draw of exactly 0 is possible: [0, 1))
+        self.ev += [(0.2, 0.9, 50.0, 0.0), (0.2, 0.9, 50.0, -0.0)]
         self.k = len(self.ev)
 
     def make(self):
